@@ -2,6 +2,7 @@ package main
 
 import (
 	"fmt"
+	"os"
 
 	"github.com/sarchlab/mgpusim/v4/amd/kernels"
 
@@ -183,6 +184,9 @@ func l1Cases(c *vlib.Check) []any {
 		out = append(out, g)
 	}
 	n := c.N(3000, 40000)
+	if os.Getenv("C08_ONLY_CANONICAL") != "" { // debugging aid
+		n = 0
+	}
 	maxN := c.N(300, 2000)
 	maxPts := c.N(40000, 150000)
 	base := c.Rand("l1")
